@@ -271,16 +271,16 @@ prop('C12',
      design_ref='DESIGN.md §5 C12')
 
 prop('C11',
-     modules=['LarkVerif.Serialize', 'LarkVerif.Props.C11', 'LarkVerif.Extracted'],
+     modules=['LarkVerif.Serialize', 'LarkVerif.TableSer', 'LarkVerif.Props.C11', 'LarkVerif.Extracted'],
      theorems=['Props.C11.roundtrip_identity', 'Props.C11.frozenset_not_restored', 'Props.C11.flags_roundtrip_with_hook', 'Props.C11.behaviour_fields_serialised', 'Props.C11.load_allowed_are_options',
-               'Props.C11.structural_options_not_load_allowed'],
-     fingerprints=['lark/utils.py:Serialize.serialize', 'lark/utils.py:Serialize.deserialize', 'lark/utils.py:_serialize', 'lark/utils.py:_deserialize', 'lark/lark.py:Lark._load', 'lark/lark.py:Lark.save', 'lark/lark.py:Lark.__init__'],
+               'Props.C11.structural_options_not_load_allowed', 'Props.C11.parse_table_reencoding_roundtrip', 'TableSer.serStates_spec', 'TableSer.get_spec'],
+     fingerprints=['lark/utils.py:Serialize.serialize', 'lark/utils.py:Serialize.deserialize', 'lark/utils.py:_serialize', 'lark/utils.py:_deserialize', 'lark/lark.py:Lark._load', 'lark/lark.py:Lark.save', 'lark/lark.py:Lark.__init__', 'lark/parsers/lalr_analysis.py:ParseTableBase.serialize', 'lark/parsers/lalr_analysis.py:ParseTableBase.deserialize', 'lark/utils.py:Enumerator.get', 'lark/utils.py:Enumerator.reversed'],
      rule='(a) random plain Python values (None, ints, strings, lists, dicts, frozensets) through the real _serialize/_deserialize vs the Lean ser/deser; (b) random feature-rich LALR grammars (C03 generator; terminals varied '
           'with i/s flags, priorities, regexps, alternations) x keep_all_tokens, maybe_placeholders, propagate_positions, lexer, g_regex_flags, bytes mode: the original instance vs Lark.load(save), vs a second construction served '
           'from the cache file, vs cache=True under a second option set, vs the generated stand-alone module (every third case; instantiated once with a load-time option and then plainly), on 3 sampled sentences and 3 random texts '
           'each: parse (full canonical trees with positions and meta, or error class, position and expected set), interactive parse with accepts() after every token, and scan(). Non-trivial: every grammar case; values containing a frozenset. Import histories: a grammar importing a module file, random sequences of (construct through the cache | edit the imported file): every cached parser must behave like a direct build of the grammar as it is now.',
      not_proved=['behaviour equality of the restored instance is compared, not proved: the Lean theorems cover the field-wise round trip on plain data, the frozenset gap and its hook, and that every field the behaviour reads is in the '
-                 'extracted field tables', 'the parse-table re-encoding (ParseTableBase.serialize) is exercised by the differential run only'],
+                 'extracted field tables', 'the parse-table re-encoding is proved a round trip for the Lean TableSer mirror (all tables); that ParseTableBase.serialize/deserialize are that mirror is compared on every generated table (encoded form and decoded table), not proved'],
      assumptions=['pickle round-trips the serialised dict faithfully'],
      level_text='Theorems: deserialize(serialize(v)) = v for every value without a frozenset; a frozenset comes back as a list unless a hook restores it (the F3 mechanism and its repair); the field lists extracted from the current source '
                 'contain every field the lexer/parser behaviour reads; load-time options are options and none is structural. The Lean ser/deser run against the real functions; restored, cached and stand-alone parsers are compared '
